@@ -190,6 +190,10 @@ pub fn gen_plan(g: &mut G, max_payload: usize) -> BodyPlan {
     let method = ["GET", "POST", "GET", "PUT", "DELETE", "PATCH", "OPTIONS"][(len / 3 + extra.len()) % 7];
     let mut wire = Wire::default();
     wire.bytes = httpref::encode_head(status, ["OK", "", "Whatever It Takes"][len % 3], &extra);
+    // (no draw) an HTTP/1.0 server (length- or close-delimited bodies): same framing rules
+    if framing != Framing::Chunked && (len + extra.len()) % 4 == 1 {
+        wire.bytes[7] = b'0';
+    }
     wire.head_len = wire.bytes.len();
     wire.targets.push(wire.head_len - 1);
     wire.targets.push(wire.head_len - 2);
